@@ -86,39 +86,51 @@ def load_table():
     with open(TABLE) as fh: return json.load(fh)['sites']
 
 
+def _fam(fn):
+    from ..facts import family_of
+    return family_of(fn)
+
+
 def _check(run, F, prop):
+    """rows and sites are matched per (file, family namespace, member, operation) - not per function, so that moving an
+    atomic operation into a helper of the same algorithm (or merging duplicated code) is silent.  Within a key the
+    i-th strongest site must satisfy the i-th strongest requirement; sites beyond the number of rows must satisfy the
+    weakest requirement of the key; rows beyond the number of sites (merged duplicates) are dropped."""
     tab = [r for r in load_table() if r['prop'] == prop and (not r.get('configs') or F.config in r['configs'])]
     if not tab: raise Broken('no table rows for ' + prop)
     cur = collections.defaultdict(list)
     for s in sites(F):
-        cur[(s['fn'], s['member'], s['op'])].append(s)
+        cur[(s['file'], _fam(s['fn']), s['member'], s['op'])].append(s)
     need = collections.defaultdict(list)
-    for r in tab: need[(r['fn'], r['member'], r['op'])].append(r)
+    for r in tab: need[(r['file'], _fam(r['fn']), r['member'], r['op'])].append(r)
+    def strength(o): return len(GE.get(o, ()))
+    def sat(site, row): return all(req in GE.get(got, ()) for req, got in zip(row['orders'], site['orders'] + ['seq_cst'] * 2))
     for key, rows in need.items():
         have = list(cur.get(key, []))
-        if len(have) < len(rows):
+        if not have:
             # C++20-only code is absent from gnu++17 configurations
-            if not have and all(r.get('cxx20') for r in rows) and '17' in F.config:
-                for r in rows: run.inst('%s %s' % (r['file'], key[0]), 'C++20-only code: absent from this configuration', nontrivial=False, key=key + ('n/a',))
+            if all(r.get('cxx20') for r in rows) and '17' in F.config:
+                for r in rows: run.inst('%s %s' % (r['file'], key[1]), 'C++20-only code: absent from this configuration', nontrivial=False, key=key + ('n/a',))
                 continue
-            run.broke('atomic site vanished: %s %s.%s (table has %d, tree has %d)' % (key[0], key[1], key[2], len(rows), len(have)))
+            run.broke('atomic site vanished: %s %s.%s (table has %d, tree has none in %s)' % (key[1], key[2], key[3], len(rows), key[0]))
             continue
-        # greedy matching: strongest requirements first, each takes the weakest site that satisfies it
-        rows = sorted(rows, key=lambda r: -len(GE.get(r['orders'][0], ())))
-        unmatched = []
-        for r in rows:
-            cand = [s for s in have if all(req in GE.get(got, ()) for req, got in zip(r['orders'], s['orders'] + ['seq_cst'] * 2))]
-            run.inst('%s:%s %s' % (r['file'], have[0]['line'] if have else '?', key[0]), '%s.%s needs %s (%s)' % (key[1], key[2], '/'.join(r['orders']), r.get('role', '')), key=key + (tuple(r['orders']),))
-            if cand:
-                pick = min(cand, key=lambda s: len(GE.get(s['orders'][0], ())))
-                have.remove(pick)
-            else:
-                unmatched.append(r)
-        for r in unmatched:
-            s = have[0] if have else cur[key][0]
-            if have: have.remove(s)
-            run.violation(s['f']['qname'], 'mo:%s.%s' % (key[1], key[2]), '%s:%s' % (s['file'], s['line']),
-                          '%s.%s uses memory_order %s but its role needs %s: %s' % (key[1], key[2], '/'.join(s['orders']), '/'.join(r['orders']), r.get('role', 'ordering required by the protocol')))
+        rows = sorted(rows, key=lambda r: -strength(r['orders'][0]))
+        have.sort(key=lambda s: -strength(s['orders'][0]))
+        for i, s in enumerate(have):
+            r = rows[i] if i < len(rows) else rows[-1]
+            run.inst('%s:%s %s' % (s['file'], s['line'], s['fn']), '%s.%s needs %s (%s)' % (key[2], key[3], '/'.join(r['orders']), r.get('role', '')), key=key + (i,))
+            if not sat(s, r):
+                # a weaker site may still be fine if some other pairing works: try exact multiset matching before reporting
+                ok = False
+                if len(have) == len(rows):
+                    rest = list(have); ok = True
+                    for rr in rows:
+                        cand = [x for x in rest if sat(x, rr)]
+                        if not cand: ok = False; break
+                        rest.remove(min(cand, key=lambda x: strength(x['orders'][0])))
+                if ok: break
+                run.violation(s['f']['qname'], 'mo:%s.%s' % (key[2], key[3]), '%s:%s' % (s['file'], s['line']),
+                              '%s.%s uses memory_order %s but its role needs %s: %s' % (key[2], key[3], '/'.join(s['orders']), '/'.join(r['orders']), r.get('role', 'ordering required by the protocol')))
 
 
 def _mk(prop, floor):
@@ -205,32 +217,34 @@ def value_sites(F):
 
 
 def _check_values(run, F, prop):
+    """per (file, family namespace, member, operation): every constant a current site writes/expects must be one the frozen
+    table lists for that key; constants that merely disappeared (merged duplicates, code moved to a helper) are silent"""
     with open(VTABLE) as fh: tab = [r for r in json.load(fh)['sites'] if r['prop'] == prop]
     if not tab: raise Broken('no value rows for ' + prop)
     cur = collections.defaultdict(list)
-    for s in value_sites(F): cur[(s['fn'], s['member'], s['op'])].append(s)
+    for s in value_sites(F): cur[(s['file'], _fam(s['fn']), s['member'], s['op'])].append(s)
     need = collections.defaultdict(list)
-    for r in tab: need[(r['fn'], r['member'], r['op'])].append(r)
+    for r in tab: need[(r['file'], _fam(r['fn']), r['member'], r['op'])].append(r)
     for key, rows in sorted(need.items()):
         have = cur.get(key, [])
         if not have:
             if all(r.get('cxx20') for r in rows) and '17' in F.config:
-                run.inst('%s %s' % (rows[0]['file'], key[0]), 'C++20-only code: absent from this configuration', nontrivial=False, key=key + ('n/a',)); continue
+                run.inst('%s %s' % (rows[0]['file'], key[1]), 'C++20-only code: absent from this configuration', nontrivial=False, key=key + ('n/a',)); continue
             if all(F.config not in r.get('configs', [F.config]) for r in rows):
-                run.inst('%s %s' % (rows[0]['file'], key[0]), 'absent from this configuration', nontrivial=False, key=key + ('n/a',)); continue
-            run.broke('atomic write site with a constant operand vanished: %s %s.%s' % key); continue
-        want = sorted((r.get('value') or '-', r.get('expected') or '-') for r in rows)
-        got = sorted((s.get('value') or '-', s.get('expected') or '-') for s in have)
-        run.inst('%s:%s %s' % (have[0]['file'], have[0]['line'], key[0]), '%s.%s writes %s' % (key[1], key[2], want), key=key)
-        if want != got:
-            # which constants changed
-            extra = [g for g in got if g not in want]; missing = [w for w in want if w not in got]
-            s = have[0]
-            for h in have:
-                if ((h.get('value') or '-', h.get('expected') or '-')) in extra: s = h; break
-            run.violation(s['f']['qname'], 'aval:%s.%s' % (key[1], key[2]), '%s:%s' % (s['file'], s['line']),
-                          '%s.%s in %s now writes/expects (new value, expected value) %s where the frozen protocol table has %s: a state transition, count or flag value of the protocol changed' % (
-                              key[1], key[2], key[0].split('::')[-1], extra or got, missing or want))
+                run.inst('%s %s' % (rows[0]['file'], key[1]), 'absent from this configuration', nontrivial=False, key=key + ('n/a',)); continue
+            run.broke('atomic write site with a constant operand vanished: %s %s.%s in %s' % (key[1], key[2], key[3], key[0])); continue
+        want_v = {r.get('value') for r in rows if r.get('value')}
+        want_e = {r.get('expected') for r in rows if r.get('expected')}
+        run.inst('%s:%s %s' % (have[0]['file'], have[0]['line'], key[1]), '%s.%s writes %s expects %s' % (key[2], key[3], sorted(want_v), sorted(want_e)), key=key)
+        for s in have:
+            badv = s.get('value') and s['value'] not in want_v
+            bade = s.get('expected') and want_e and s['expected'] not in want_e
+            if badv or bade:
+                run.violation(s['f']['qname'], 'aval:%s.%s' % (key[2], key[3]), '%s:%s' % (s['file'], s['line']),
+                              '%s.%s in %s now %s where the frozen protocol table has %s: a state transition, count or flag value of the protocol changed' % (
+                                  key[2], key[3], s['fn'].split('::')[-1],
+                                  ('writes %s' % s['value']) if badv else ('expects %s' % s['expected']),
+                                  sorted(want_v) if badv else sorted(want_e)))
 
 
 def _mkv(prop, floor):
